@@ -223,6 +223,12 @@ def run (st : St) (args : List Str) (impl : String) : St × String × String × 
       match rest with
       | [id] => mutate st id none impl "delete"
       | _ => bad
+    else if c = str "getrace" then
+      -- the get handler holds the value's read transaction until it has answered: a concurrent
+      -- update (and its events) comes after the response the client bases itself on — the
+      -- client then applies the event to what it was given (`handler_coherent_*`)
+      let evs := if rest = [str "model"] then "event" else "event"
+      (st, "getrace order=response," ++ evs, "getrace order=response," ++ evs, "getrace")
     else if c = str "get" then
       match rest with
       | [rid] =>
